@@ -123,7 +123,12 @@ class C04(Prop):
             instants.append(int(t))
             if k == 'simtime':
                 return {'t': 'simtime', 'rel': rel, 'thr': int(t)}
-            return {'t': 'clock', 'rel': rel, 'thr': int(rm.clock_of(t, o))}
+            cond = {'t': 'clock', 'rel': rel, 'thr': int(rm.clock_of(t, o))}
+            if rng.chance(0.12):
+                cond['first_day'] = 1            # daily, from clock day 1 on
+            elif rng.chance(0.12) and (rel == '=' or cond['thr'] >= o.get('start_clocktime', 0)):
+                cond['once'] = True              # single trigger; after/before are then not reset at midnight
+            return cond
 
         n = rng.irange(1, 6)
         p_rule = rng.pick([0.0, 0.3, 0.6, 1.0])
@@ -191,6 +196,8 @@ class C04(Prop):
             if cond['rel'] == '=':
                 x = cond['thr'] if cond['t'] == 'simtime' else (cond['thr'] - o.get('start_clocktime', 0)) % 86400
                 return x % rs == 0
+            if cond.get('once') and (cond.get('first_day') or cond['thr'] < o.get('start_clocktime', 0)):
+                return False      # 'before' on a later day: the docstring and the day gate disagree; not generated
             return True
         return all(ok(c['cond']) for c in scn['controls'] if c['kind'] == 'rule')
 
